@@ -5,6 +5,7 @@ import (
 	"github.com/smarthome-go/homescript/v3/homescript/errors"
 	pAst "github.com/smarthome-go/homescript/v3/homescript/parser/ast"
 	"github.com/smarthome-go/homescript/v3/homescript/runtime/value"
+	"sort"
 )
 
 const MainFunctionIdent = "main"
@@ -286,7 +287,16 @@ func (self *Compiler) compileProgram(
 			self.currFn = InitFunctionIdent
 			self.currModule = entryPointModule
 
-			for moduleName, otherInit := range initFns {
+			// In the order of the module names (not of the map): which module is initialised first - and asks the
+			// host for its singletons and imports first - must be the same in every compilation.
+			initOrder := make([]string, 0, len(initFns))
+			for moduleName := range initFns {
+				initOrder = append(initOrder, moduleName)
+			}
+			sort.Strings(initOrder)
+
+			for _, moduleName := range initOrder {
+				otherInit := initFns[moduleName]
 				if moduleName == entryPointModule {
 					continue
 				}
